@@ -51,7 +51,8 @@ PROBES = {
 _COMMON = {
     'components': {'real': ['wpull.protocol.http.web.WebClient/WebSession', 'RedirectTracker', 'wpull.protocol.http.client/stream/request',
                             'CookieJarWrapper + DeFactoCookiePolicy + http.cookiejar', 'WebProcessorSession._add_referrer',
-                            'wpull.url.URLInfo/urljoin', 'wpull.network pool/connection/dns'],
+                            'wpull.url.URLInfo/urljoin', 'wpull.network pool/connection/dns', 'HTTPProxyConnectionPool (one variant)',
+                            'whole application incl. the request factory of --header/--referer (application layer, 1 run in 12 of C16)'],
                    'stub': ['TCP transport', 'wildcard DNS', 'TLS (plaintext stub)', 'clock', 'adaptive origin servers']},
     'assumptions': ['the visit loop of WebProcessorSession._process_loop is replicated by the harness without URL filters',
                     'expected request targets are known by construction (canonical parts + spelling noise), not via wpull\'s normaliser',
